@@ -20,7 +20,7 @@ from fractions import Fraction
 from . import terms as tm
 from . import solve
 from .values import (Sym, SInt, SBool, SStr, SReal, SDec, SErr, Obj, SymSeq, Unsupported,
-                     SpecError, dec_term, is_sym)
+                     SpecError, dec_term, is_sym, OpaqueFn, OpaqueVal, ArrVal)
 from . import dates as _dates  # noqa: F401  (registers datetime / calendar models)
 
 
@@ -327,6 +327,8 @@ class Ctx:
                 except Infeasible:
                     continue
                 except PyRaise as ex:
+                    if os.environ.get('VERIF_DEBUG_SPEC'):
+                        print('SPEC RAISED', ex.exc.cls.__name__, ex.exc.fields.get('args'))
                     if on_raise == 'false':
                         v = tm.FALSE
                     else:
@@ -363,8 +365,10 @@ def truth_term(v):
         return tm.TRUE
     if isinstance(v, Sym):
         raise Unsupported('truth of %r' % v)
-    if isinstance(v, (Closure,)):
+    if isinstance(v, (Closure, OpaqueFn)):
         return tm.TRUE
+    if isinstance(v, OpaqueVal):
+        raise Unsupported('truth of an opaque value')
     try:
         return tm.const(bool(v))
     except Exception as ex:
@@ -1029,6 +1033,8 @@ class Interp:
             return models.call_method(self, f.obj, f.name, args, kwargs)
         if isinstance(f, SpecFn):
             return f.impl(self, *args, **kwargs)
+        if isinstance(f, OpaqueFn):
+            return self.call_opaque(f, args, kwargs)
         if isinstance(f, functools.partial):
             kw = dict(f.keywords)
             kw.update(kwargs)
@@ -1064,6 +1070,17 @@ class Interp:
             except Exception as ex:
                 self.raise_(type(ex), *ex.args)
         raise Unsupported('call of %r' % (f,))
+
+    def call_opaque(self, f, args, kwargs):
+        n = len(f.raises)
+        k = self.ctx.choice(n + 1)
+        if k == 0:
+            r = f.result(self.ctx, '%s.ret%d' % (f.name, len(f.calls))) if f.result else OpaqueVal('%s.ret%d' % (f.name, len(f.calls)))
+            f.calls.append((tuple(args), dict(kwargs), ('return', r)))
+            return r
+        exc = f.raises[k - 1](self.ctx, '%s.exc%d' % (f.name, len(f.calls)))
+        f.calls.append((tuple(args), dict(kwargs), ('raise', exc)))
+        raise PyRaise(exc)
 
     def bind(self, c, args, kwargs):
         a = c.node.args
@@ -1239,6 +1256,9 @@ class Interp:
     def obj_getattr(self, o, name):
         if name == '__class__':
             return o.cls
+        ov = getattr(o, 'overrides', None)
+        if ov and name in ov:
+            return self.call(ov[name], [], {})
         # data descriptors / class attrs
         for k in o.cls.__mro__:
             if name in k.__dict__:
